@@ -170,7 +170,15 @@ def handle : List String → String
       match plen.toNat?, rootEnd.toNat?, k.toNat?, m.toNat?, parseBool? st with
       | some plen, some rootEnd, some k, some m, some st =>
           let file := synth 7 plen
-          outcome (load k (xmlRead rootEnd ⟨file.take m, st⟩)) (file.take rootEnd) ++ " " ++ toString file.length
+          let s : Src := ⟨file.take m, st⟩
+          -- the block loop of `ParseFile` (2048-byte blocks, closing final call) around the most permissive
+          -- expat the contract allows must agree with the one-line contract model `xmlRead`
+          let agree := match xmlRead rootEnd s, xmlParseFile (lazyExpat rootEnd) 2048 s with
+            | .error _, .error _ => true
+            | .ok _, .ok _ => true
+            | _, _ => false
+          if !agree then "bad-model" else
+          outcome (load k (xmlRead rootEnd s)) (file.take rootEnd) ++ " " ++ toString file.length
       | _, _, _, _, _ => "bad-op"
   | _ => "bad-op"
 
